@@ -190,8 +190,12 @@ class _P:
                 o = io.BytesIO(fields["data"])
                 o.seek(fields["pos"])
                 return o
+            if name in ("Header", "HeaderErr", "other", "raised"):      # x7: known by class name and fields only
+                return WireObj(name, fields)
             if name in ("module", "callable"):                          # x6: known by class name and fields only
                 return WireObj(name, fields)
+            if name == "Message":                                        # x7: the real message is re-parsed from its source
+                return _x7_parse(fields["source"])
             cls, _ = _OBJ_CLASSES[name]
             if issubclass(cls, tuple):
                 return cls(**fields)
@@ -2126,7 +2130,59 @@ def _g_invalid_metadata(rng):
     return [vars(MD.Metadata)[key], rng.choice(["{field} is bad", "no placeholder", "{field} and {field}", "{x}", ""]), cause]
 
 
+def _x7_parse(data):
+    import email.parser
+    import email.policy
+    if isinstance(data, str):
+        return email.parser.Parser(policy=email.policy.compat32).parsestr(data, headersonly=True)
+    return email.parser.BytesParser(policy=email.policy.compat32).parsebytes(data, headersonly=True)
+
+
+def _x7_message(data):
+    """the wire form of what `email.parser` makes of `data` (see the `Message` section of PkgModel/PyX7.lean); `source` lets the
+    real side re-parse the same document"""
+    import email.header
+    parsed = _x7_parse(data)
+    hdrs = []
+    for k, v in parsed.items():
+        if isinstance(v, email.header.Header):
+            try:
+                hv = WireObj("Header", {"chunks": [b for b, _ in email.header.decode_header(v)]})
+            except Exception as e:
+                hv = WireObj("HeaderErr", {"cls": type(e).__name__})
+        else:
+            hv = v
+        hdrs.append((k, hv))
+    other = WireObj("other", {})
+    def pl(m, **kw):
+        try:
+            p = m.get_payload(**kw)
+        except Exception as e:
+            return Raise(type(e).__name__)
+        return p if isinstance(p, (str, bytes)) else other
+    fields = {"headers": hdrs, "payload": pl(parsed), "decoded_cte": pl(parsed, decode=True)}
+    stripped = _x7_parse(data)
+    del stripped["content-transfer-encoding"]
+    fields["decoded"] = pl(stripped, decode=True)
+    fields["source"] = data
+    return WireObj("Message", fields)
+
+
+def _g_get_payload(rng):
+    from gen import metadata as GM
+    doc = GM.document(rng, wellformed=rng.random() < 0.3)
+    if rng.random() < 0.35:                     # a Content-Transfer-Encoding header and a body it would rewrite
+        doc["headers"].append([rng.choice(["Content-Transfer-Encoding", "content-transfer-encoding", "CONTENT-TRANSFER-ENCODING"]),
+                               ["t", rng.choice(["base64", "quoted-printable", "8bit", "x-uuencode", "BASE64"])]])
+        if rng.random() < 0.7:
+            doc["body"] = ["t", rng.choice(["aGVsbG8=\n", "=41=42 c\n", "plain", "aGVsbG8", "=FF\n", "/w==\n"])]
+    data = GM.build_doc(doc)
+    source = data if rng.random() < 0.9 else (b"x" if isinstance(data, str) else "x")     # the `isinstance(source, str)` switch
+    return [_x7_message(data), source]
+
+
 _MDM = "packaging.metadata"
+FUNCS["_get_payload"] = (_MDM, "_get_payload", _g_get_payload)
 FUNCS.update({
     "InvalidMetadata.__init__": (_MDM, "InvalidMetadata.__init__", _g_invalid_metadata_init),
     "_Validator._invalid_metadata": (_MDM, "_Validator._invalid_metadata", _g_invalid_metadata),
